@@ -1036,7 +1036,9 @@ func sequences(r *enumx.Run, ag *agg) int {
 		items = append(items, e.item(sp))
 	}
 	var total atomic.Int64
-	r.Parallel(len(items), func(ai int) {
+	// sequentially: the sub-space is about hidden shared state, so no two
+	// sequences may run at the same time (and the findings stay deterministic)
+	for ai := range items {
 		A := &items[ai]
 		var n int64
 		report := func(kind, msg string, seq []string) {
@@ -1054,6 +1056,6 @@ func sequences(r *enumx.Run, ag *agg) int {
 		}
 		r.Count(n, n)
 		total.Add(n)
-	})
+	}
 	return int(total.Load())
 }
